@@ -51,7 +51,15 @@ def obj_deps():
 
 
 def programs(tier):
-    """yield (space, mspecs, value names)"""
+    """yield (space, mspecs, value names); the space name may end in '@<flavour>' = how the dependent types are written"""
+    yield from programs0(tier)
+    for fl in annot.DEP_FLAVOURS[1:]:
+        for space, ms, vals in programs0("quick"):
+            if space.split(":")[0] in ("i", "i1", "ii", "iii", "iv", "v", "ix", "x") and (tier != "quick" or space.split(":")[0] in ("i1", "ii", "iv", "v", "ix", "x")):
+                yield f"{space}@{fl}", ms, vals
+
+
+def programs0(tier):
     x = gen.SHAPES["x"]
     xy = gen.SHAPES["xy"]
     ivals = [n for n, _ in INT_VALUES]
@@ -133,6 +141,19 @@ def programs(tier):
                 yield "v:union-of-dependents", ms, ivals + ovals
 
 
+    # (x) intersections with dependent members: runs iff every member holds
+    for pi, pj in itertools.combinations(("p1", "p3", "p5", "p6"), 2):
+        for b1, b2 in (("int", "int"), ("int", "O"), ("O", "int")):
+            for st in (None, "O", "int"):
+                for members in ([["dep", b1, pi], ["dep", b2, pj]], [["dep", b2, pj], ["dep", b1, pi]]):
+                    ms = [M(0, x, {"x": ["inter"] + members})] + ([M(1, x, {"x": st}, -1)] if st else [])
+                    yield "x:intersection-of-dependents", ms, ivals + ["True", "4"]
+    for po in ("qa", "qb"):
+        for other in ("K1", "K0", "Z", ["dep", "K1", po], ["dep", "K0", "qa"]):
+            for st in (None, "O", "K0"):
+                for members in ([["dep", "K0", po], other], [other, ["dep", "K0", po]]):
+                    ms = [M(0, x, {"x": ["inter"] + members})] + ([M(1, x, {"x": st}, -1)] if st else [])
+                    yield "x:intersection-of-dependents", ms, ovals
     # (ix) union with a dependent member whose bound is strictly narrower than another member (or that member's bound)
     nw = []
     for pi in ("p2", "p3", "p6"):
@@ -173,6 +194,14 @@ def pred_bounds(mspecs):
 
 
 def check_program(space, mspecs, vnames, acc, only=None):
+    annot.DEP_FLAVOUR[0] = space.split("@")[1] if "@" in space else "Dependent"
+    try:
+        return _check_program(space, mspecs, vnames, acc, only)
+    finally:
+        annot.DEP_FLAVOUR[0] = "Dependent"
+
+
+def _check_program(space, mspecs, vnames, acc, only=None):
     sem = annot.Sem(CLASSES)
     ref = RefOvld(mspecs, sem)
     found = []
@@ -245,7 +274,8 @@ def shard(shard, nshards, tier, seed):
         if idx % nshards != shard:
             continue
         acc.count("programs")
-        acc.h("programs_per_space", space)
+        acc.h("programs_per_space", space.split("@")[0])
+        acc.h("dependent_written_as", space.split("@")[1] if "@" in space else "Dependent")
         check_program(space, mspecs, vnames, acc)
         if idx % (nshards * 29) == shard:
             acc.sample({"space": space, "methods": mspecs, "values": vnames[:4]})
@@ -271,10 +301,11 @@ def main(tier):
         merged["errors"].append(f"a dispatcher strategy was never generated: {dict(st)}")
     return core.finish(
         PROP, tier, "model_checking", merged, t0,
-        rule="integer domain {0,1,2} with ALL 8 predicates, bounds int / object; class bounds K0 / K1 with attribute predicates; "
+        rule="value-dependent types written as Dependent[bound, fn] (every space) and as @dependent_check function / parametrised function "
+             "/ class, a ParametrizedDependentType subclass, Dependent[bound, existing type] (spaces i1, ii, iv, v, ix, x; thorough also i, iii); integer domain {0,1,2} with ALL 8 predicates, bounds int / object; class bounds K0 / K1 with attribute predicates; "
              "<= 2 (thorough 3) dependent methods + <= 1 static method on the bound, a subclass or an unrelated class; priorities; "
              "one position, two positions, keyword-only dependent parameter, a union of two dependent types with different bounds; "
-             "a union whose dependent member has a strictly narrower bound than another member; 4-5 single-valued Literal methods of which every proper subset carries a second dependent condition on the other position; "
+             "a union whose dependent member has a strictly narrower bound than another member; intersections with dependent members; 4-5 single-valued Literal methods of which every proper subset carries a second dependent condition on the other position; "
              "every value of the corpus; oracle R1-R3 with the dependent clauses + every value a predicate is asked about must be an "
              "instance of its bound; non-trivial = calls with >= 2 applicable methods",
         assumptions=["reference semantics of vt/annot.py (dependent < static types comparable with its bound; equal bounds unordered; "
